@@ -491,11 +491,16 @@ def wl_routes(ctx, rng):
             for m, g in injected:
                 X[m] = np.array(g.mixProfile, dtype=float) * np.ones(n)       # the gas object's own profile (C10 gas contracts)
             tot = sum(X.values())
+            if np.any(tot <= 0):
+                return None              # a layer in which every declared profile is zero: there is no mixture to normalise
             return {m: v / tot for m, v in X.items()}
 
         def judge_now(tag, injected):
             chem.initialize_chemistry(n, T, P, None)
             ref = reference(injected)
+            if ref is None:
+                ctx.event('domain-skip:routes-empty-mixture-in-a-layer')
+                return
             act, ina = list(chem.activeGases), list(chem.inactiveGases)
             ctx.check('routes:split-by-availability', sorted(act) == sorted(m for m in ref if m in avail)
                       and sorted(ina) == sorted(m for m in ref if m not in avail), active=act, inactive=ina,
